@@ -491,6 +491,8 @@ def run(ctx: RuleContext, p: Program) -> None:
     ctx.try_rule(round4.rule_set_covers, p, 'SET-COVERS')
     ctx.try_rule(round4.rule_dec_exact, p, 'DEC-EXACT')
     ctx.try_rule(round4.rule_meta_sem, p, 'META-SEM')
+    from . import grammar_rules
+    ctx.try_rule(grammar_rules.rule_term_domain, p, 'TERM-DOMAIN')
     ctx.not_decided += ['survival of values through print and re-parse', 'value domains of each token type (C12)',
                         'other dependent groups (none documented)']
     ctx.assumptions += ['primitive models of FSM-COST: unordered_node_property get/set means present/absent component of that type; '
